@@ -357,8 +357,16 @@ def run(ctx):
             res_ok = True
     ctx.check(res_ok, "R15.4", "merge_record_descriptors:result",
               "the merged descriptor is not built from (type, name) pairs in insertion order", mr, "RecordDescriptor(name, zip(types, names))")
-    nm = [st for st in walk_no_nested(mr) if isinstance(st, ast.Assign) and norm(st.targets[0]) == "name"]
-    ctx.check(bool(nm) and "descriptors[0].name" in norm(nm[0].value) and ("name is None and descriptors", True) in enclosing_conditions(nm[0], mr), "R15.4", "merge_record_descriptors:name",
+    nparam = func_params(mr)[2] if len(func_params(mr)) > 2 else "name"
+    nm = [st for st in walk_no_nested(mr) if isinstance(st, ast.Assign) and norm(st.targets[0]) == nparam]
+    name_ok = False
+    if len(nm) == 1 and norm(nm[0].value) == f"{dparam}[0].name":
+        prem_n = logic.facts_as_premises(mcfg.facts_at(mcfg.node_of(nm[0]).id))
+        # the default applies exactly when no name was given (and there is a first descriptor to take it from)
+        name_ok = logic.implies(prem_n, logic.parse(f"{nparam} is None"))
+        only = {a for e0, _ in prem_n for a in logic.atoms(logic.formula(e0))}
+        name_ok = name_ok and only <= {f"{nparam} is None", dparam, f"len({dparam})"}
+    ctx.check(name_ok, "R15.4", "merge_record_descriptors:name",
               "the merged name is not the first descriptor's unless given", mr, "name defaults to descriptors[0].name")
     gi = ctx.anchor_func("flow.record.base.GroupedRecord.__init__")
     gcfg = CFG(gi)
